@@ -25,3 +25,7 @@ pub use crate::units::bgp_tcp_in::verif::*;
 /// machine emits.
 pub use crate::units::bmp_tcp_in::verif_update::route_monitoring as bmp_route_monitoring;
 pub use rotonda_store::prelude::multi::RouteStatus;
+
+/// The same UPDATE on an established BGP session (bgp_tcp_in
+/// `Processor::process_update`).
+pub use crate::units::bgp_tcp_in::router_handler::verif_update::process_update as bgp_session_process_update;
